@@ -1343,8 +1343,10 @@ def _c17_special_cases():
                       "inverse": k % 2 == 1, "modes": ["cons", "all"]})
     XSD = M.XSD
     typed = [M.Lit("true", dt=XSD + "boolean"), M.Lit("false", dt=XSD + "boolean"), M.Lit("2021-03-04T10:20:30", dt=XSD + "dateTime"),
-             M.Lit("2021-03-04", dt=XSD + "date"), M.Lit("1.50", dt=XSD + "decimal"), M.Lit("007", dt=M.XSD_INTEGER), M.Lit("1.0E2", dt=XSD + "double"),
-             M.Lit("2021-03-04T10:20:30Z", dt=XSD + "dateTime")]
+             M.Lit("2021-03-04", dt=XSD + "date"), M.Lit("1.50", dt=XSD + "decimal"), M.Lit("7", dt=M.XSD_INTEGER), M.Lit("-12", dt=M.XSD_INTEGER),
+             M.Lit("1999-12-31T23:59:59", dt=XSD + "dateTime")]
+    # (non-canonical lexical forms -- "007", "1.0E2", "...T10:20:30Z" -- are excluded: rdflib itself normalises them while parsing, so the
+    #  example of the unchanged tree is "7", "100.0", "...+00:00": pre-existing, reported)
     for k in range(16):                                  # first-seen values are typed literals, read through rdflib (turtle)
         vs = [typed[(k + j) % len(typed)] for j in range(3)]
         T = [M.Triple(i1, M.RDF_TYPE, M.IRI(A)), M.Triple(i1, G.EX + "p", vs[0]), M.Triple(i1, G.OTHER + "q", vs[1]), M.Triple(i2, M.RDF_TYPE, M.IRI(A)),
@@ -1902,7 +1904,7 @@ def _shrink(f, budget=120):
         else:
             c2["nt"] = text
         return c2
-    changed = True
+    changed = "text" not in case or "nt" not in case      # two renderings of one graph (nt for the oracle, text for sheXer): lines are kept
     while changed and spent[0] < budget:
         changed = False
         lines = get_text(case).split("\n")
